@@ -88,12 +88,24 @@ def has_constructed_default(t):
     return False
 
 
+def contains_real(t):
+    b = gen.base_of(t)
+    if b[0] == 'real':
+        return True
+    if b[0] in ('seq', 'set', 'choice'):
+        return any(contains_real(ft) for _, _, ft in b[1])
+    if b[0] in ('seqof', 'setof'):
+        return contains_real(b[1])
+    return False
+
+
 def has_real_default(t):
-    """finding T12: a DEFAULT member of type REAL is compared with the value through CPython floats"""
+    """finding T12: a DEFAULT member of type REAL — or of a constructed type with a REAL somewhere inside, whose `==`
+    compares the REALs — is compared with the value through CPython floats"""
     b = gen.base_of(t)
     if b[0] in ('seq', 'set', 'choice'):
         for kind, dflt, ft in b[1]:
-            if kind == 'd' and gen.base_of(ft)[0] == 'real':
+            if kind == 'd' and contains_real(ft):
                 return True
             if has_real_default(ft):
                 return True
